@@ -489,6 +489,13 @@ pub fn run(tier: &str, seed: u64, s: &mut Sink) {
                     q[off + i] ^= p;
                 }
                 emit(s, "burst-msb-first-generator-multiple", &q);
+                // open known finding msb_first_burst32: under the MSB-first reading of "contiguous bits" these two
+                // 32-bit windows (40 serial positions) are multiples of the generator and are not rejected
+                if off >= 20 && off + 5 <= base.len() - 4 {
+                    let case = format!("relkf-msbburst32 {} {}", hex(&base), hex(&q));
+                    let o = observe_line(&case).unwrap();
+                    s.put(&case, &o, "known-class-msb-first-burst32", true);
+                }
             }
         }
     }
@@ -560,6 +567,22 @@ pub fn observe_line(line: &str) -> Option<String> {
     let (tag, rest) = line.split_once(' ').unwrap_or((line, "-"));
     match tag {
         "c3chunk" => Some(observe(&unhex(rest))),
+        "relkf-msbburst32" => {
+            // implementation-only oracle: a change confined to 32 contiguous bits (MSB-first numbering within bytes) of
+            // an accepted chunk must be rejected
+            let (a, b) = rest.split_once(' ')?;
+            let (a, b) = (unhex(a), unhex(b));
+            let ok = |x: &[u8]| {
+                let v = x.to_vec();
+                catch(move || alpha_g_detector::padwing::Chunk::try_from(&v[..]).is_ok()).unwrap_or(false)
+            };
+            Some(if ok(&a) && a != b && ok(&b) {
+                let first = a.iter().zip(&b).position(|(x, y)| x != y).unwrap();
+                format!("fails accepted: 32 contiguous bits (MSB-first within bytes) starting in byte {first} changed, chunk still accepted")
+            } else {
+                "holds".to_string()
+            })
+        }
         "c3crc" => Some(format!("crc {}", inv_crc(&unhex(rest)))),
         _ => None,
     }
